@@ -710,8 +710,9 @@ class Result:
         self.calls = []
 
 
-def run_roundtrip(repo, path="HH_scan3", rpc=7, nested=False, nat_first=False):
-    """nat_first: the hierarchy also has a datetime column whose first element may be missing (NaT)"""
+def run_roundtrip(repo, path="HH_scan3", rpc=7, nested=False, nat_first=False, encode_extra=None):
+    """nat_first: the hierarchy also has a datetime column whose first element may be missing (NaT); encode_extra: further (args, kwargs)
+    of caching.encode, as another writer of index files (the stand-alone tool) passes them"""
     R = Result()
     NAT_FIRST.clear()
     if nat_first:
@@ -729,7 +730,8 @@ def run_roundtrip(repo, path="HH_scan3", rpc=7, nested=False, nat_first=False):
     csc = I.module_scope(repo.module(CACHING))
     try:
         R.stage = "encode"
-        text = I.call(I.lookup("encode", csc), [g], {})
+        extra_a, extra_kw = encode_extra if encode_extra is not None else ([], {})
+        text = I.call(I.lookup("encode", csc), [g] + list(extra_a), OrderedDict(extra_kw))
         R.after_encode = describe(g)
         R.doc = text.fields.get("doc") if isinstance(text, Obj) else None
         R.stage = "decode"
